@@ -40,8 +40,24 @@ func TestSplitLargeBatch(t *testing.T) {
 				half = append(half, gen.CopyMetric(m))
 			}
 		}
+		// one wide name: 32..120 series under it (one per tag value), among the narrow ones
+		if wide := rapid.SampledFrom([]int{0, 31, 32, 33, 64, 120}).Draw(t, "wide-name-series"); wide > 0 {
+			for j := 0; j < wide; j++ {
+				m := &gostatsd.Metric{Name: "wide.name", Type: types[mix%4], Value: 1, Rate: 1, StringValue: "m", Timestamp: 1, Tags: gostatsd.Tags{fmt.Sprintf("shard:%d", j)}}
+				ms = append(ms, m)
+				if j%2 == 0 {
+					half = append(half, gen.CopyMetric(m))
+				}
+			}
+		}
 		mm := gen.MapFromMetrics(ms)
 		idx := splitIndex(t, mm, n)
+		// splitting the same batch again gives the same parts
+		for k, j := range splitIndex(t, gen.MapFromMetrics(ms), n) {
+			if i, ok := idx[k]; !ok || i != j {
+				vt.Fail(t, "C06:order-dependent", "series %v: part %d, splitting the same batch a second time part %d (present=%v)", k, i, j, ok)
+			}
+		}
 		idx2 := splitIndex(t, gen.MapFromMetrics(half), n)
 		for k, j := range idx2 {
 			if i, ok := idx[k]; !ok || i != j {
